@@ -493,9 +493,13 @@ func (a *A) ruleStrategyOutcome(fn *ssa.Function, checkNoDropWithoutTimeout bool
 				any = true
 			}
 			k := o.Tag + fmt.Sprint(o.Rets)
+			if o.RetI != nil {
+				k += fmt.Sprint("#", *o.RetI)
+			}
+			k += fmt.Sprint("@", o.RecvParams)
 			if !seen[k] {
 				seen[k] = true
-				out = append(out, CallSummary{Tag: o.Tag, Rets: o.Rets})
+				out = append(out, CallSummary{Tag: o.Tag, Rets: o.Rets, RetI: o.RetI, RecvParams: o.RecvParams})
 			}
 		}
 		sumBusy[f] = false
@@ -531,9 +535,12 @@ func (a *A) ruleStrategyOutcome(fn *ssa.Function, checkNoDropWithoutTimeout bool
 		for _, cs := range out {
 			t := strings.NewReplacer("S", "", "D", "").Replace(cs.Tag)
 			k := t + fmt.Sprint(cs.Rets)
+			if cs.RetI != nil {
+				k += fmt.Sprint("#", *cs.RetI)
+			}
 			if !seen[k] {
 				seen[k] = true
-				stripped = append(stripped, CallSummary{Tag: t, Rets: cs.Rets})
+				stripped = append(stripped, CallSummary{Tag: t, Rets: cs.Rets, RetI: cs.RetI, RecvParams: cs.RecvParams})
 			}
 		}
 		return stripped
@@ -605,6 +612,9 @@ func (a *A) ruleStrategyOutcome(fn *ssa.Function, checkNoDropWithoutTimeout bool
 		}}
 		w := NewWalker(env, nil)
 		w.RetIdx = -1
+		if res := fn.Signature.Results(); res.Len() == 1 && isIntType(res.At(0).Type()) {
+			w.RetIdx = 0 // an outcome code: carried into the caller's path
+		}
 		w.AllRets = true
 		w.CallFork = summariseFor
 		w.Visits = 2
